@@ -2555,6 +2555,37 @@ theorem creach_bound (cap : Int) (s t : CState) (h : CReach cap s t) (h0 : s.cou
     | pay d h1 h2 => simp only; omega
     | remove d => simp only; omega
 
+/-- the counter-level system extended with the one real step `CStep` leaves out:
+a writer that returns unpaid after a fruitless walk (`giveUp`), counted in `gave` -/
+structure CState2 where
+  count : Int
+  owing : Nat
+  gave : Nat
+
+inductive CStep2 (cap : Int) : CState2 → CState2 → Prop
+  | insert (s : CState2) (b : Bool) : CStep2 cap s ⟨s.count + (if b then 1 else 0), s.owing + 1, s.gave⟩
+  | observe (s : CState2) : 0 < s.owing → s.count ≤ cap → CStep2 cap s ⟨s.count, s.owing - 1, s.gave⟩
+  | pay (s : CState2) (d : Nat) : 0 < s.owing → 1 ≤ d → CStep2 cap s ⟨s.count - d, s.owing - 1, s.gave⟩
+  | remove (s : CState2) (d : Nat) : CStep2 cap s ⟨s.count - d, s.owing, s.gave⟩
+  | giveUp (s : CState2) : 0 < s.owing → CStep2 cap s ⟨s.count, s.owing - 1, s.gave + 1⟩
+
+inductive CReach2 (cap : Int) : CState2 → CState2 → Prop
+  | refl (s : CState2) : CReach2 cap s s
+  | step {s t u : CState2} : CReach2 cap s t → CStep2 cap t u → CReach2 cap s u
+
+theorem creach2_bound (cap : Int) (s t : CState2) (h : CReach2 cap s t) (h0 : s.count ≤ cap + s.owing + s.gave) :
+    t.count ≤ cap + t.owing + t.gave ∧ s.gave ≤ t.gave := by
+  induction h with
+  | refl => exact ⟨h0, Nat.le_refl _⟩
+  | step _ st ih =>
+    obtain ⟨i1, i2⟩ := ih
+    cases st with
+    | insert b => simp only; refine ⟨?_, i2⟩; split <;> omega
+    | observe h1 h2 => simp only; exact ⟨by omega, i2⟩
+    | pay d h1 h2 => simp only; exact ⟨by omega, i2⟩
+    | remove d => simp only; exact ⟨by omega, i2⟩
+    | giveUp h1 => simp only; exact ⟨by omega, by omega⟩
+
 /-! ### LimiterStore -/
 
 /-- invariant of the limiter store between calls -/
@@ -3225,7 +3256,7 @@ theorem spill_is_two_steps {H : Hashes} (hH : HashOk H) {m : SegMap V} (inv : Se
     ∃ mid, IStep H ⟨m, pend⟩ mid ∧ IStep H mid ⟨evictSeg H m j offset n skip, pend⟩ := by
   obtain ⟨_, _, e3, _, _⟩ := evict_spec hH.idx (inv.segs j hj) offset n skip
   refine ⟨_, IStep.secDefer ⟨m, pend⟩ t j (SegOp.evict offset n skip) hj trivial ht
-    (by show (UMap.evictKeysAt H.idx (m.segAt j) offset n skip).1.size ≤ _; omega), ?_⟩
+    (by show (UMap.evictKeysAt H.idx (m.segAt j) offset n skip).1.size ≤ (m.segAt j).size; omega), ?_⟩
   have hf := IStep.flush (H := H) (V := V)
     ⟨{ segs := m.segs.setIfInBounds j ((SegOp.evict offset n skip).apply H (m.segAt j)), count := m.count },
      pend.set t (pend.getD t 0 - ((((SegOp.evict offset n skip).apply H (m.segAt j)).size : Int) - ((m.segAt j).size : Int)))⟩
